@@ -16,19 +16,29 @@
  *   sig=<at>:<T|A|H>,...                      signals at select counts
  *   bf=<digits>                               per bounce injection: 0 ok, 1 fails
  *   crash=<k>:<mode>,...                      world crash before global call k of the 1st, 2nd.. incarnation (mode 0..4)
- *   fault=<proc>:<call>:<errno>               single failing call
+ *   fault=<proc>:<call>:<errno>[:<inc>]       single failing call (of the <inc>-th incarnation, 0-based; default: the first)
  *   hor=<n>                                   horizon (selects) after which TERM is sent
  *   term=<sel>,<sel>,...                      clean stops: the 1st, 2nd.. incarnation gets TERM at select <sel> (0 = none); when it then
  *                                             exits 0 the daemon is started again on the same queue (restart after a CLEAN stop)
  *   hold=<n>                                  the spawners withhold their reports while fewer than n attempts are unanswered and the
  *                                             daemon is still issuing commands (lets the in-flight count reach the concurrency bound)
+ *   slow=<n> slowt=<sec>                      slow deliveries: no attempt is answered before n selects of the daemon AND sec seconds of virtual
+ *                                             time have passed since its command was read (the attempts stay in flight while the daemon sleeps,
+ *                                             virtual time passes, retry times come due and signals arrive); once TERM was sent (term=, hor=)
+ *                                             the reports flow again
  *
  * generated scenarios (r = scenario number): r < nrandom: the four classic modes (r % 4: plain, multi-message, crash, fault);
  * then nrandom/16 "bound" scenarios (limit bytes and configured concurrency over 0..255(+), up to ~270 recipients, reports withheld),
  * nrandom/16 "multi-pass" scenarios (3-8 recipients on one channel, several passes with mixed outcomes),
  * nrandom/40 fault sweeps (2-3 sequential messages that reuse job slots; base run, then one run per queue-file system call of
  * qmail-send with that call failing, then one run per unlink of qmail-clean - intd/ todo/ mess/ - failing with EIO) and nrandom/50 clean-stop sweeps (expired/young messages, low concurrency; base run, then one
- * run per select point with TERM there, exit 0, restart on the same queue).
+ * run per select point with TERM there, exit 0, restart on the same queue) and nrandom/80 slow-delivery fault sweeps (1-2 messages with
+ * several recipients, every delivery in flight for `slow` selects and `slowt` seconds (0, or more than SLEEP_SYSFAIL), ALRM/HUP and
+ * virtual time passing meanwhile; base run, then one run per queue-file system call of qmail-send - open/fstat/read/stat/unlink/.. on
+ * info/ local/ remote/ bounce/ todo/ - with that call failing; even members: the calls of the first incarnation (preprocessing, pass
+ * opening, marking); odd members: clean stop (term=) with unfinished recipients, then the calls of the RESTARTED daemon (pqstart/pqadd's
+ * stat()s at start-up, the pqfail retry 123 s later, pass opening) - so that whatever a failing call leaves scheduled runs while the
+ * attempts started before it are still outstanding).
  *
  * Two build modes.  Default (C15/C16 legs): qmail.c is replaced by a stand-in below (a bounce injection is one atomic event).
  * -DQSEND_REAL_QMAIL (C03/C04): qmail-send is linked with the REAL qmail.o of the scratch build (qmail.c compiled with
@@ -66,16 +76,17 @@ typedef struct {
   int nsig; struct { int at; int sig; } sig[6];
   char bf[32];
   int ncrash; struct { unsigned long k; int mode; } crash[4];
-  int fproc, fcall, ferr;
+  int fproc, fcall, ferr, finc;
   int hor;
   int nterm; int term[6];
   int hold;
+  int slow; long slowt;
   char text[1600];
 } scen;
 static scen S;
 
 /* ---- spawner emulation ---- */
-typedef struct { int chan, delnum, attempt; char outcome; char recip[100]; char messid[40]; int sent; } pend;
+typedef struct { int chan, delnum, attempt; char outcome; char recip[100]; char messid[40]; int sent; int born; long bornclock; } pend;
 #define MAXPEND 8192
 static pend pending[MAXPEND]; static int npending;
 static int nattempt, nselect, nbounce, incarnation;
@@ -98,7 +109,7 @@ static void parse_commands(void) {
       if (nul < 3) break;
       if (npending >= MAXPEND) { xlog("X too-many-deliveries\n"); break; }
       pend *e = &pending[npending++];
-      e->chan = c; e->delnum = b->p[p]; e->attempt = nattempt++; e->sent = 0;
+      e->chan = c; e->delnum = b->p[p]; e->attempt = nattempt++; e->sent = 0; e->born = nselect; e->bornclock = W.clock;
       e->outcome = S.out[0] ? S.out[e->attempt % strlen(S.out)] : 'K';
       snprintf(e->messid, sizeof e->messid, "%s", (char *)b->p + p + 1);
       snprintf(e->recip, sizeof e->recip, "%s", (char *)b->p + f[1] + 1);
@@ -183,8 +194,9 @@ static int daemon_select(simproc *p, int nfds, fd_set *r, fd_set *w, struct time
   for (int i = 0; i < S.nmsg; i++) if (!S.msg[i].created && S.msg[i].arrive && S.msg[i].arrive <= nselect) { create_message(&S.msg[i], i); mark_active(); }
   /* one report per select (hold=: none while the daemon is still issuing commands and fewer than `hold` attempts are unanswered) */
   static int cand[MAXPEND]; int nc = 0;
-  for (int i = 0; i < npending; i++) if (!pending[i].sent) cand[nc++] = i;
-  if (nc) mark_active();
+  int inflight = 0;
+  for (int i = 0; i < npending; i++) if (!pending[i].sent) { inflight++; if (!stop_requested && ((S.slow > 0 && nselect - pending[i].born < S.slow) || (S.slowt > 0 && W.clock - pending[i].bornclock < S.slowt))) continue; cand[nc++] = i; }   /* slow= slowt=: not answered yet */
+  if (inflight) mark_active();
   if (nc && !(S.hold > 0 && newcmds && nc < S.hold && !stop_requested)) {
     int k = S.ord == 0 ? 0 : S.ord == 1 ? nc - 1 : (int)((ordrng = ordrng * 6364136223846793005ull + 1442695040888963407ull) >> 33) % nc;
     send_report(&pending[cand[k]]);
@@ -409,6 +421,7 @@ static void flush_trace(void) {
 }
 
 static void (*after_first_incarnation)(void);    /* sweep generators: inspect the trace of the base run before it is flushed */
+static int hook_inc;                             /* ... the trace of this incarnation (0 = the first) */
 static void run_scenario(void) {
   fprintf(h_out, "CASE %s\n", S.text);
   incarnation = 0; nattempt = 0; nbounce = 0; ordrng = 88172645463325252ull; last_active = 0; memset(active_sel, 0, sizeof active_sel);
@@ -419,10 +432,10 @@ static void run_scenario(void) {
   for (int inc = 0; inc < 8; inc++) {
     if (inc < S.ncrash) sim_crash_before = W.ncalls_total + S.crash[inc].k;
     sim_nfaults = 0;
-    if (inc == 0 && S.fcall > 0) { sim_faults[0].proc = S.fproc; sim_faults[0].callno = S.fcall; sim_faults[0].err = S.ferr; sim_nfaults = 1; }
+    if (inc == S.finc && S.fcall > 0) { sim_faults[0].proc = S.fproc; sim_faults[0].callno = S.fcall; sim_faults[0].err = S.ferr; sim_nfaults = 1; }
     term_at = inc < S.nterm ? S.term[inc] : 0;
     start_incarnation();
-    if (inc == 0 && after_first_incarnation) after_first_incarnation();
+    if (inc == hook_inc && after_first_incarnation) after_first_incarnation();
     flush_trace();
     int crashed = P[0].crashed;
     if (crashed) { sim_apply_crash(inc < S.ncrash ? S.crash[inc].mode : CR_KEEP); fprintf(h_out, "X crash-applied mode=%d\n", inc < S.ncrash ? S.crash[inc].mode : 0); announce_new_messages(1); }
@@ -449,8 +462,10 @@ static void parse_scenario(const char *line) {
     else if (!strcmp(t, "ord")) S.ord = atoi(v); else if (!strcmp(t, "bf")) snprintf(S.bf, sizeof S.bf, "%s", v);
     else if (!strcmp(t, "hor")) S.hor = atoi(v);
     else if (!strcmp(t, "hold")) S.hold = atoi(v);
+    else if (!strcmp(t, "slow")) S.slow = atoi(v);
+    else if (!strcmp(t, "slowt")) S.slowt = atol(v);
     else if (!strcmp(t, "term")) { char *s2 = 0; for (char *u = strtok_r(v, ",", &s2); u && S.nterm < 6; u = strtok_r(0, ",", &s2)) S.term[S.nterm++] = atoi(u); }
-    else if (!strcmp(t, "fault")) sscanf(v, "%d:%d:%d", &S.fproc, &S.fcall, &S.ferr);
+    else if (!strcmp(t, "fault")) sscanf(v, "%d:%d:%d:%d", &S.fproc, &S.fcall, &S.ferr, &S.finc);
     else if (!strcmp(t, "sig")) { char *s2 = 0; for (char *u = strtok_r(v, ",", &s2); u && S.nsig < 6; u = strtok_r(0, ",", &s2)) { char c; if (sscanf(u, "%d:%c", &S.sig[S.nsig].at, &c) == 2) S.sig[S.nsig++].sig = c; } }
     else if (!strcmp(t, "crash")) { char *s2 = 0; for (char *u = strtok_r(v, ",", &s2); u && S.ncrash < 4; u = strtok_r(0, ",", &s2)) if (sscanf(u, "%lu:%d", &S.crash[S.ncrash].k, &S.crash[S.ncrash].mode) == 2) S.ncrash++; }
     else if (!strcmp(t, "m")) {
@@ -585,9 +600,44 @@ static void gen_termbase(char *o, size_t osz) {
   n += snprintf(o + n, osz - n, " hor=%d", 120 + (int)h_below(120));   /* the start-up scan of mess/ takes about 95 selects; retries come after it */
 }
 
+/* base of a slow-delivery fault sweep: 1-2 messages with several recipients; every attempt stays in flight for `slow` selects of
+ * the daemon and `slowt` seconds of virtual time (0, or more than SLEEP_SYSFAIL = 123 s), so that while deliveries are outstanding
+ * the daemon sleeps until the next retry time (virtual time passes: the clock jumps to whatever comes due next), ALRM/HUP arrive,
+ * further passes open.  restart = 0: half of the first messages arrive after the start-up scan of mess/ (about 95 selects with
+ * timeout 0, during which the clock stands still).  restart = 1: the first messages are there at the start, the first attempts are
+ * mostly deferred and the daemon is stopped cleanly (term=) soon after; the RESTARTED daemon finds preprocessed messages with
+ * unfinished recipients (pqstart/pqadd), and the sweep fails its calls. */
+static void gen_slowbase(char *o, size_t osz, int restart) {
+  size_t n = 0; char out[24]; int nm = 1 + (h_below(3) == 0), at = 0, nrmax = 0;
+  n += snprintf(o + n, osz - n, "m=");
+  for (int i = 0; i < nm; i++) {
+    int nr = 2 + h_below(4); int base = h_below(6); int kind = h_below(restart ? 5 : 3);
+    if (nr > nrmax) nrmax = nr;
+    n += snprintf(o + n, osz - n, "%s%s:", i ? ";" : "", senders[h_below(10) < 7 ? 0 : h_below(5)]);
+    if (kind == 0) n += snprintf(o + n, osz - n, "u*%d@h.example", nr);
+    else if (kind == 1) n += snprintf(o + n, osz - n, "r*%d@far.example", nr);
+    else for (int j = 0; j < nr; j++) n += snprintf(o + n, osz - n, "%s%s", j ? "," : "", rcpts[(base + j) % 6]);     /* both channels */
+    if (i) at += 1 + (int)h_below(restart ? 8 : 30); else at = restart || h_below(2) ? 0 : 96 + (int)h_below(30);
+    if (at) n += snprintf(o + n, osz - n, "@%d", at);
+  }
+  int slow = 2 + (int)h_below(30); int slowt = (int[]){0, 130, 130, 200, 1000}[h_below(5)];
+  /* two times out of three more delivery slots than recipients: the pass reaches the end of its file while its attempts are in flight */
+  int conf[2], lim[2];
+  for (int c = 0; c < 2; c++) { int k = h_below(3) == 0 ? 1 + (int)h_below(3) : nrmax + 1 + (int)h_below(3); int more = k + (int)h_below(3); if (h_below(2)) { conf[c] = k; lim[c] = more; } else { conf[c] = more; lim[c] = k; } }
+  if (restart) { int zl = 1 + h_below(4); memset(out, 'Z', zl); outscript(out + zl, 5, "KKKKKZZD"); } else outscript(out, 6, "KKKKKZZD");
+  n += snprintf(o + n, osz - n, " out=%s ord=%d cl=%d cr=%d sl=%d sr=%d slow=%d", out, (int)h_below(3), conf[0], conf[1], lim[0], lim[1], slow);
+  if (slowt) n += snprintf(o + n, osz - n, " slowt=%d", slowt);
+  if (h_below(6) == 0) n += snprintf(o + n, osz - n, " life=%d", (int[]){0, 1, 150}[h_below(3)]);
+  if (h_below(3)) { int a1 = at + 2 + (int)h_below(slow + 8); n += snprintf(o + n, osz - n, " sig=%d:A", a1); if (h_below(2)) n += snprintf(o + n, osz - n, ",%d:%c", a1 + 1 + (int)h_below(slow + 20), "AAH"[h_below(3)]); }
+  n += snprintf(o + n, osz - n, " hor=%d", (at < 96 ? 96 : at) + 2 * slow + 30 + (int)h_below(60));
+  /* clean stop: before the first command (4 selects after the arrival; the restarted daemon finds untouched records that are due at once) or after it (deferred records) */
+  if (restart) n += snprintf(o + n, osz - n, " term=%d", h_below(2) ? at + 1 + (int)h_below(5) : at + 5 + (int)h_below(20));
+}
+
 /* the queue-file system calls of qmail-send in the base run (fault sweep): every call that names, or works on a descriptor
  * of, a file below info/ local/ remote/ bounce/ todo/ */
 static int sweep_calls[8192], sweep_ncalls, sweep_all, sweep_total, sweep_last_active; static unsigned char sweep_active[MAXSEL];
+static int sweep_skip_readdir;
 static int sweep_calls1[64], sweep_ncalls1;      /* the unlink calls of qmail-clean (process 1) in the base run */
 static int sweep_max2;                           /* REAL qmail.c mode: the largest call number of a qmail-queue child (process 2) in the base run */
 static int qfile(const char *path) { return !strncmp(path, "info/", 5) || !strncmp(path, "local/", 6) || !strncmp(path, "remote/", 7) || !strncmp(path, "bounce/", 7) || !strncmp(path, "todo/", 5); }
@@ -603,6 +653,7 @@ static void collect_calls(void) {
     if (sscanf(line, "P1 #%d unlink %199s", &k, arg) == 2) { if (strncmp(arg, "pid/", 4) && sweep_ncalls1 < 64) sweep_calls1[sweep_ncalls1++] = k; continue; }
     if (sscanf(line, "P0 #%d %39s %199s", &k, op, arg) != 3) continue;
     int hit = 0;
+    if (sweep_skip_readdir && !strcmp(op, "readdir")) continue;      /* qsim's readdir never fails: a planned fault there is a wasted run */
     if (qfile(arg)) { hit = 1; char *ar = strstr(line, "-> "); if (!strncmp(op, "open", 4) && ar) { fd = atoi(ar + 3); if (fd >= 0 && fd < SIM_MAXFD) isq[fd] = 1; } }
     else if ((!strcmp(op, "read") || !strcmp(op, "write") || !strcmp(op, "fsync") || !strcmp(op, "fstat")) && arg[0] >= '0' && arg[0] <= '9') { fd = atoi(arg); hit = fd >= 0 && fd < SIM_MAXFD && isq[fd]; }
     if ((hit || sweep_all) && sweep_ncalls < 8192 && (!sweep_ncalls || sweep_calls[sweep_ncalls - 1] != k)) sweep_calls[sweep_ncalls++] = k;
@@ -611,17 +662,19 @@ static void collect_calls(void) {
 
 static void run_line(char *line) { parse_scenario(line); run_scenario(); }
 
-static void sweep_fault(char *base, int cap, int all) {
+static void sweep_fault(char *base, int cap, int all, int only0, int finc) {
   static char line[4000];
-  sweep_all = all; after_first_incarnation = collect_calls; run_line(base); after_first_incarnation = 0;
-  int nc = sweep_ncalls; static int calls[8192]; memcpy(calls, sweep_calls, sizeof(int) * nc);
+  sweep_all = all; sweep_skip_readdir = only0; sweep_ncalls = 0; hook_inc = finc; after_first_incarnation = collect_calls; run_line(base); after_first_incarnation = 0; hook_inc = 0;
+  int nc = sweep_ncalls;   /* (0 when the base run never reached incarnation finc) */ static int calls[8192]; memcpy(calls, sweep_calls, sizeof(int) * nc);
   /* at most `cap` variants, spread evenly over the calls (seeded offset) */
   int step = nc > cap ? (nc + cap - 1) / cap : 1; int off = step > 1 ? (int)h_below(step) : 0;
   static const int errs[] = { EIO, EIO, EIO, ENOMEM, -1, ENOSPC };
   for (int i = off; i < nc; i += step) {
-    snprintf(line, sizeof line, "%s fault=0:%d:%d", base, calls[i], errs[h_below(6)]);
+    if (finc) snprintf(line, sizeof line, "%s fault=0:%d:%d:%d", base, calls[i], errs[h_below(6)], finc);
+    else snprintf(line, sizeof line, "%s fault=0:%d:%d", base, calls[i], errs[h_below(6)]);
     run_line(line);
   }
+  if (only0) return;
   /* ... and one run per unlink of qmail-clean (intd/ todo/ mess/) with that call failing: qmail-clean answers '!' (at most 12, no random draw) */
   int nc1 = sweep_ncalls1; static int calls1[64]; memcpy(calls1, sweep_calls1, sizeof(int) * nc1);
   int step1 = nc1 > 12 ? (nc1 + 11) / 12 : 1;
@@ -668,7 +721,10 @@ int main(int argc, char **argv) {
   int nrandom = h_argi(argc, argv, 1, 100);
   uint64_t seed = (uint64_t)h_argi(argc, argv, 2, 1);
   int shard = h_argi(argc, argv, 3, 0), nshards = h_argi(argc, argv, 4, 1);
+  const char *only = getenv("QSEND_FAMILY");   /* debugging aid: run one family only (0 = classic, 1.. = the additional ones) */
+  int onlyf = only ? atoi(only) : -1;
   for (int r = 0; r < nrandom; r++) {
+    if (onlyf > 0) break;
     if (r % nshards != shard) continue;
     h_seed(seed * 1000003ull + r);
     gen_scenario(line, 4000, r % 4);
@@ -676,15 +732,17 @@ int main(int argc, char **argv) {
   }
   /* the additional families; family f has cnt[f] members, member i runs on shard (i + f) % nshards */
   int thorough = nrandom >= 8000;
-  int cnt[4] = { nrandom / 16, nrandom / 16, nrandom / 40, nrandom / 50 };
-  for (int f = 0, r = nrandom; f < 4; f++) for (int i = 0; i < cnt[f]; i++, r++) {
+  int cnt[5] = { nrandom / 16, nrandom / 16, nrandom / 40, nrandom / 50, nrandom / 80 };
+  for (int f = 0, r = nrandom; f < 5; f++) for (int i = 0; i < cnt[f]; i++, r++) {
     if ((i + 5 * f) % nshards != shard) continue;
+    if (onlyf >= 0 && onlyf != f + 1) continue;
     h_seed(seed * 1000003ull + r);
     switch (f) {
       case 0: gen_bound(line, 1500); run_line(line); break;
       case 1: gen_multipass(line, 1500); run_line(line); break;
-      case 2: gen_faultbase(line, 1500); sweep_fault(line, thorough ? 100 : 60, thorough && i % 4 == 0); break;
+      case 2: gen_faultbase(line, 1500); sweep_fault(line, thorough ? 100 : 60, thorough && i % 4 == 0, 0, 0); break;
       case 3: gen_termbase(line, 1500); sweep_term(line, thorough ? 60 : 50, thorough); break;
+      case 4: gen_slowbase(line, 1500, i % 2); sweep_fault(line, thorough ? 90 : 48, 0, 1, i % 2); break;
     }
   }
   fflush(h_out);
